@@ -232,9 +232,10 @@ def r15_2(run):
     if ok:
         lid = conv[0].loops[-1]
         it = r.loops[lid]["iter"]
-        vals = it[0] == "call" and it[1][0] == "attr" and it[1][2] in ("values", "items") and contains(it[1][1], C("nets")) \
+        # loops over a mapping are normalised to `for k in d.keys(): v = d[k]` (items() / values() / keys()+subscript alike)
+        vals = it[0] == "call" and it[1][0] == "attr" and it[1][2] == "keys" and contains(it[1][1], C("nets")) \
             and contains(it[1][1], loads[0].term)
-        member = ("loop", lid, 0) if vals and it[1][2] == "values" else ("loop", lid, 1)
+        member = ("idx", it[1][1], (("loop", lid, 0),)) if vals else None
         ok = vals and all(c.args == (member,) for c in conv) and {c.fn[1] for c in conv} == {CF + ".convert_format", "pandapower.convert_format.convert_format"} \
             or (vals and all(c.args == (member,) for c in conv) and len({c.fn[1] for c in conv}) == 2)
     run.ob("from_json_string|member-nets-converted", ok,
@@ -303,9 +304,14 @@ def r15_2(run):
         fe = FunctionInfo(IU, "json_component", enc[0])
         re_ = ANF(ix, fe).run()
         p0 = fe.params()[0]
-        ok = any(e.value[0] == "call" and e.value[1][1].endswith("with_signature") and any(
-            p_ and c_ == ("call", ("x", "builtins.issubclass"), (("n", p0), c_[2][1]), ()) and c_[2][1][1].endswith(".Component") for c_, p_ in e.cond)
-            for e in re_.returns() if e.value[0] == "call" and e.value[1][0] in ("x", "f"))
+        from ..arrnf import norm_cond as _nc
+
+        def is_component_test(c_, p_):
+            c_, p_ = _nc(c_, p_)
+            return p_ and c_[0] == "call" and c_[1] == ("x", "builtins.issubclass") and len(c_[2]) == 2 and c_[2][0] == ("n", p0) \
+                and c_[2][1][0] in ("f", "x") and c_[2][1][1].endswith(".Component")
+        ok = any(e.value[0] == "call" and e.value[1][1].endswith("with_signature") and any(is_component_test(c_, p_) for c_, p_ in e.cond)
+                 for e in re_.returns() if e.value[0] == "call" and e.value[1][0] in ("x", "f"))
     run.ob("encoder|component-classes", ok,
            "component classes (net.component_list) are written with a signature", ix.sp.relpath(IU))
     mc = ix.const(IU, "MODULE_CHANGES")
